@@ -18,6 +18,8 @@ def run(ctx, res):
                       "C17.dedup (the map serializer and both visit_map implementations build objects with Object::insert: duplicates collapse to the first position with the last value)",
                       "C17.de (ValueVisitor: visit_* -> variant table; sequences collected in order) and C16.de for Value as a Deserializer"]
     ser_rule(ctx, res)
+    res.rules_run.append("C17.serializer (the methods of the crate's Serializer that Serialize for Value / Number drives — unit, bool, i64, u64, f64, str, seq — build the matching variant from the argument itself: C16.ser restricted to them)")
+    C16.ser_rule(ctx, res, only={"root_ser_unit", "root_ser_bool", "root_ser_i64", "root_ser_u64", "root_ser_f64", "root_ser_str", "root_ser_seq"}, rule="C17.serializer")
     token_rule(ctx, res)
     handshake_rule(ctx, res)
     dedup_rule(ctx, res)
